@@ -12,12 +12,19 @@ Fail-closed: any construct outside this grammar raises, which the framework repo
 g(ctx) writes coq/Gen/ReportLabels.v (the templates of every line) for the theorems that quantify over them."""
 import ast
 import json
+import re
 import string
 
 from lib import framework as fw, qconv, c09fmt
 
 WRITER = ('src/geophires_x/Outputs.py', 'Outputs', 'PrintOutputs')
+# writers whose text is appended to the same report when add-ons / S-DAC-GT are enabled (called from print_outputs_rich)
+EXTRA_WRITERS = {'addons': ('src/geophires_x/OutputsAddOns.py', 'OutputsAddOns', 'PrintOutputs'),
+                 'sdac': ('src/geophires_x/OutputsS_DAC_GT.py', 'OutputsS_DAC_GT', 'PrintOutputs')}
+ID_BASE = {'main': 0, 'addons': 10000, 'sdac': 20000}
 IGNORED_CALL_PREFIXES = ('model.logger.', 'print_outputs_rich(', 'print(')
+IGNORED_SET_RE = r'^pd\.|\.reset_index\(\)$'
+IGNORED_CALL_RE = r'^[A-Za-z_]\w*\.append\('     # rows collected for the rich/HTML output (not claimed)
 
 
 class Unsupported(Exception):
@@ -29,7 +36,7 @@ def _src(node):
 
 
 class Extractor:
-    def __init__(self, tree, cls, fn):
+    def __init__(self, tree, cls, fn, id_base=0):
         self.consts = {}
         for n in tree.body:  # module-level string constants (NL)
             if isinstance(n, ast.Assign) and len(n.targets) == 1 and isinstance(n.targets[0], ast.Name) \
@@ -44,7 +51,7 @@ class Extractor:
             if isinstance(n, ast.FunctionDef) and any(isinstance(d, ast.Name) and d.id == 'staticmethod' for d in n.decorator_list):
                 m = ast.FunctionDef(name=n.name, args=n.args, body=n.body, decorator_list=[], returns=None, lineno=0, col_offset=0)
                 self.helpers[n.name] = {'def': ast.unparse(ast.fix_missing_locations(m))}
-        self.nid = 0
+        self.nid = id_base
         self.fvar = None
 
     # ---- one f.write argument -> parts ----
@@ -128,7 +135,7 @@ class Extractor:
             src = _src(c)
             if src.startswith('self._convert_units('):
                 return [{'t': 'call', 'src': src}]
-            if src.startswith(IGNORED_CALL_PREFIXES):
+            if src.startswith(IGNORED_CALL_PREFIXES) or re.match(IGNORED_CALL_RE, src):
                 return []
             raise Unsupported(f'call statement at line {s.lineno}: {src[:60]}')
         if isinstance(s, ast.If):
@@ -138,7 +145,22 @@ class Extractor:
                 raise Unsupported(f'for loop at line {s.lineno}')
             return [{'t': 'for', 'var': s.target.id, 'iter': _src(s.iter), 'body': self.block(s.body)}]
         if isinstance(s, ast.Assign) and len(s.targets) == 1 and isinstance(s.targets[0], ast.Name):
-            return [{'t': 'set', 'name': s.targets[0].id, 'expr': _src(s.value)}]
+            v = s.value
+            strish = lambda x: isinstance(x, ast.JoinedStr) or (isinstance(x, ast.Constant) and isinstance(x.value, str))
+            if re.search(IGNORED_SET_RE, _src(v)):
+                return []   # pandas frames for the rich/HTML output (not claimed)
+            if isinstance(v, ast.JoinedStr):      # a piece of line text built ahead of the write
+                self.nid += 1
+                return [{'t': 'set', 'name': s.targets[0].id, 'id': self.nid, 'parts': self.parts(v)}]
+            if isinstance(v, ast.IfExp) and strish(v.body) and strish(v.orelse):
+                self.nid += 1
+                return [{'t': 'set', 'name': s.targets[0].id, 'id': self.nid, 'cond': _src(v.test), 'parts': self.parts(v.body),
+                         'else_parts': self.parts(v.orelse)}]
+            return [{'t': 'set', 'name': s.targets[0].id, 'expr': _src(v)}]
+        if isinstance(s, ast.Assign) and len(s.targets) == 1 and isinstance(s.targets[0], ast.Subscript):
+            return []   # data-frame columns for the rich/HTML output (not claimed)
+        if isinstance(s, ast.Return):
+            return []
         if isinstance(s, ast.AnnAssign) and isinstance(s.target, ast.Name) and s.value is not None:
             return [{'t': 'set', 'name': s.target.id, 'expr': _src(s.value)}]
         if isinstance(s, ast.FunctionDef):
@@ -158,9 +180,22 @@ class Extractor:
         return {'helpers': self.helpers, 'consts': self.consts, 'body': self.block(self.fn.body)}
 
 
-def extract(repo=None, writer=WRITER):
+def extract_one(writer, id_base=0, repo=None):
     path = (repo or fw.REPO) / writer[0]
-    return Extractor(ast.parse(path.read_text()), writer[1], writer[2]).run()
+    return Extractor(ast.parse(path.read_text()), writer[1], writer[2], id_base).run()
+
+
+def extract(repo=None):
+    """the main writer's tree, with the trees of the appended writers under 'addons' / 'sdac'"""
+    tree = extract_one(WRITER, ID_BASE['main'], repo)
+    for k, w in EXTRA_WRITERS.items():
+        tree[k] = extract_one(w, ID_BASE[k], repo)
+    return tree
+
+
+def parts_of(tree):
+    """[(writer key, sub-tree)]"""
+    return [('main', tree)] + [(k, tree[k]) for k in EXTRA_WRITERS if k in tree]
 
 
 def writes(tree):
@@ -176,7 +211,8 @@ def writes(tree):
                 walk(n['orelse'], ctx + (('else', n['cond']),))
             elif n['t'] == 'for':
                 walk(n['body'], ctx + (('for', n['var'], n['iter']),))
-    walk(tree['body'], ())
+    for _, sub in parts_of(tree):
+        walk(sub['body'], ())
     return out
 
 
@@ -214,11 +250,11 @@ def g(ctx):
     lines = ['(* GENERATED by tools/gen/c09_report.py from ' + WRITER[0] + ' - do not edit *)',
              'From Coq Require Import String Ascii List.', 'From Verif Require Import Model.Report.', 'Import ListNotations.',
              'Open Scope string_scope.', '',
-             '(* (source line, in a per-year loop?, template) of every f.write of Outputs.PrintOutputs *)',
+             '(* (source line, in a per-year loop?, template) of every f.write of Outputs / OutputsAddOns / OutputsS_DAC_GT .PrintOutputs *)',
              'Definition report_templates : list (nat * bool * list seg) := [']
     rows = []
     for c, n in ws:
-        in_loop = any(x[0] == 'for' for x in c)
+        in_loop = any(x[0] == 'for' and x[2].startswith('range(0,') for x in c)   # the per-year loops
         rows.append(f' ({n["line"]}%nat, {qconv.blit(in_loop)}, {seg_coq(n["parts"])})')
     lines.append(';\n'.join(rows) + '].')
     fw.write_if_changed(fw.COQ / 'Gen' / 'ReportLabels.v', '\n'.join(lines) + '\n')
